@@ -496,7 +496,18 @@ class UTPM(Ring, RawAlgorithmsMixIn):
         tmp = self.zeros_like() + rhs
         return tmp/self
 
+    def _check_inplace_operand(self, rhs):
+        """an in-place operator cannot change the shape of its left operand: a right operand that
+        does not broadcast INTO self.shape is an error, as for ndarrays (it used to be combined
+        with the direction / coefficient axes, or reduced to its last row)"""
+        rshape = rhs.shape if isinstance(rhs, UTPM) else numpy.shape(rhs)
+        if numpy.broadcast_shapes(self.shape, rshape) != tuple(self.shape):
+            raise ValueError('non-broadcastable output operand with shape %s doesn\'t match the broadcast shape %s'%(
+                str(tuple(self.shape)), str(numpy.broadcast_shapes(self.shape, rshape))))
+
     def __iadd__(self,rhs):
+        if isinstance(rhs,(UTPM,numpy.ndarray)) and not (isinstance(rhs,numpy.ndarray) and rhs.dtype == object):
+            self._check_inplace_operand(rhs)
         if isinstance(rhs,numpy.ndarray) and rhs.dtype == object:
             raise NotImplementedError('should implement that')
 
@@ -509,6 +520,8 @@ class UTPM(Ring, RawAlgorithmsMixIn):
         return self
 
     def __isub__(self,rhs):
+        if isinstance(rhs,(UTPM,numpy.ndarray)) and not (isinstance(rhs,numpy.ndarray) and rhs.dtype == object):
+            self._check_inplace_operand(rhs)
         if isinstance(rhs,numpy.ndarray) and rhs.dtype == object:
             raise NotImplementedError('should implement that')
 
@@ -548,6 +561,8 @@ class UTPM(Ring, RawAlgorithmsMixIn):
 
     def __itruediv__(self,rhs):
         (D,P) = self.data.shape[:2]
+        if isinstance(rhs,(UTPM,numpy.ndarray)) and not (isinstance(rhs,numpy.ndarray) and rhs.dtype == object):
+            self._check_inplace_operand(rhs)
         if isinstance(rhs,numpy.ndarray) and rhs.dtype == object:
             raise NotImplementedError('should implement that')
 
